@@ -33,6 +33,8 @@ Inductive lstate :=
 | LCls (neg : bool) (acc : list (byte * byte)) (pend : option byte) (dash : bool)
 | LClsEsc (neg : bool) (acc : list (byte * byte)) (pend : option byte) (dash : bool)
 | LRep (d1 : bytes) (comma : bool) (d2 : bytes)     (* after '{': digits, optional comma, digits (reversed) *)
+| LQuote                                            (* inside \Q ... \E: every byte is a literal *)
+| LQuoteEsc                                         (* inside \Q ... \E, just after a backslash *)
 | LLp                                               (* after '(' *)
 | LLpQ                                              (* after "(?" *)
 | LErr                                              (* RE2 rejects *)
@@ -115,11 +117,18 @@ Definition lex_step (st : lstate * list rtok) (c : byte) : lstate * list rtok :=
         else if beq c "A"%byte then (LNormal, TBol :: out)
         else if beq c "z"%byte then (LNormal, TEol :: out)
         else if beq c "x"%byte then (LHex None None, out)
+        else if beq c "Q"%byte then (LQuote, out)
         else match simple_escape c with
              | Some b => (LNormal, lit_tok b :: out)
-             | None => (LUnsup, out)        (* \Q \p \C \1 \0 ... or an invalid escape *)
+             | None => (LUnsup, out)        (* \p \C \1 \0 ... or an invalid escape *)
              end
       end
+  (* \Q: the text up to the first "\E" (or the end) is a run of one-byte literals; a repetition operator after
+     \E therefore applies to the last quoted byte alone (regexp/syntax/parse.go, case 'Q') *)
+  | LQuote => if beq c "\"%byte then (LQuoteEsc, out) else (LQuote, lit_tok c :: out)
+  | LQuoteEsc => if beq c "E"%byte then (LNormal, out)
+                 else if beq c "\"%byte then (LQuoteEsc, lit_tok c :: out)
+                 else (LQuote, lit_tok c :: lit_tok "\"%byte :: out)
   | LHex incls d =>
       match hex_val c with
       | None => (LUnsup, out)               (* \x{...} or malformed *)
@@ -182,6 +191,8 @@ Definition lex (s : bytes) : res (list rtok) :=
   | (LNormal, out) => Ok (rev' out)
   | (LRep d1 comma d2, out) => Ok (rev' (rep_literals d1 comma d2 out))
   | (LLp, out) => Ok (rev' (TLp :: out))
+  | (LQuote, out) => Ok (rev' out)
+  | (LQuoteEsc, out) => Ok (rev' (lit_tok "\"%byte :: out))
   | (LUnsup, _) => Unsupported
   | (LHex _ _, _) => Unsupported
   | _ => Err                                  (* trailing backslash, unclosed class, "(?" *)
